@@ -81,6 +81,7 @@ def limits_scn(d, Sc, Ss, segc, segs, msc, known, req, resp, wmax=127, first_iam
     resp_segs = set()
     req_segs = set()
     prop = {}     # proposed window per (sender, type)
+    granted = {}  # window of the receiver's latest segment-ack per (sender, type)
     for (i, src, dst, data) in lan.frames[n0:]:
         n, a = wire.parse_frame(data)
         if a is None:
@@ -116,7 +117,13 @@ def limits_scn(d, Sc, Ss, segc, segs, msc, known, req, resp, wmax=127, first_iam
                 prop[key] = a["win"]
             if not (1 <= a["win"] <= 127):
                 d.flag(True, "window-out-of-range", win=a["win"], apdu=wire.APDU_NAMES[a["type"]])
+        if a["type"] in (0, 3) and a["seg"] and a["seq"] >= 1:
+            # a segment after the first states the window in force: never more than the receiver granted in its acks
+            g = granted.get((from_client, a["type"]))
+            if g is not None and a["win"] > g:
+                d.flag(True, "segment-window-exceeds-grant", win=a["win"], granted=g, seq=a["seq"], apdu=wire.APDU_NAMES[a["type"]])
         if a["type"] == 4:
+            granted[(not from_client, 0 if a["srv"] else 3)] = a["win"]
             if not (1 <= a["win"] <= 127):
                 d.flag(True, "window-out-of-range", win=a["win"], apdu="segment-ack")
             # the ack answers segments sent by the other side: never more than that side proposed
